@@ -24,7 +24,7 @@ class Prop(PropBase):
         "C02_align_table", "C02_label_formula", "C02_spacing", "C02_in_band", "C02_freq_slice",
         "C02_freq_slice_rejects", "C02_nested", "C02_time_freq", "C02_time_only",
         "C02_baseband_rescale_witness", "C02_component_keeps_labels", "C02_source_formulas")]
-    trusted_base = [
+    trusted_base = ["pbverif/extract.py: symbolic evaluation of the method bodies into PbModel/Gen/Align.lean (trusted to render the source expressions faithfully; tied to the hand model by the C02_source_* theorem)", 
         "PbModel/Freq.lean hand model of RadioSignal label/slice logic; Gen/Align.lean, Gen/Classes.lean "
         "produced by pbverif/extract.py from core.py on every run",
         "astropy Quantity float arithmetic for labels (validated, not proved)",
